@@ -48,9 +48,14 @@ def _nclass(n):
     return "n%d" % n if n <= 3 else ("n4-5" if n <= 5 else "n6+")
 
 
+_KINDS = {}       # handle -> parameter kind of the episode last scanned
+
+
 def _episode_objects(lines):
     """vector parameters and calibrations created in the episode"""
     par, cal = {}, {}
+    kinds = _KINDS
+    kinds.clear()
     for ln in lines:
         try:
             ev = json.loads(ln)
@@ -58,6 +63,10 @@ def _episode_objects(lines):
             continue
         if ev.get("e") == "MakeVec" and ev.get("ok") == 1:
             par[ev["h"]] = ev["k"]
+        elif ev.get("e") == "MakePar" and ev.get("ok") == 1:
+            kinds[ev["h"]] = ev["kind"] + (
+                "/" + kinds.get(ev["base"], "vec")
+                if ev["kind"] != "scalar" else "")
         elif ev.get("e") == "CalMake":
             cal[ev["c"]] = ev
     return par, cal
@@ -97,7 +106,7 @@ def _argclass(ev, lines):
                                        _nclass(len(ev.get("k", []))),
                                        ev.get("vstd", 0))
     if e == "AddVec":
-        return ev.get("form", "?")
+        return "%s:%s" % (ev.get("form", "?"), _KINDS.get(ev.get("h"), "vec"))
     if e == "SetMErr":
         return "n%s:null%s" % (min(ev.get("n", 0), 3), ev.get("null"))
     if e in ("NoiseProbe", "SigmaProbe"):
